@@ -43,6 +43,7 @@ type Expr struct {
 	Args []*Expr `json:"args,omitempty"`
 	Par  int     `json:"par,omitempty"` // number of redundant parenthesis pairs to print around it
 	GK   int     `json:"gk,omitempty"`  // reflect.Kind of the value when it is a variable / method result (0 = arithmetic result kind)
+	Fix  string  `json:"fix,omitempty"` // fixed spelling (printed verbatim): the text a Forget/Changed names must match the source
 }
 
 // Step is one path step: a member name, or a selector expression.
@@ -445,6 +446,9 @@ func (s *Style) isAtomForm(e *Expr) bool {
 }
 
 func (s *Style) printExpr(e *Expr) string {
+	if e.Fix != "" {
+		return e.Fix
+	}
 	switch e.Op {
 	case "lit":
 		return s.PrintLit(e.Lit)
